@@ -114,6 +114,12 @@ def gen_program(ctx: Ctx, rng) -> list:
             nblk += 1
             _block(rng, prog, f"b{j}", size, ptab, f"u{nblk}")
             blocks[f"b{j}"] = size
+            if size >= 2 and rng.random() < 0.2:
+                # a heralded block: grouping is forced and every placement gives `c` an ancilla mode, which
+                # all later calls on `c` have to step over
+                prog.append(["herald", f"b{j}", rng.choice([0, 1]), rng.randrange(size), rng.randrange(size)])
+                blocks[f"b{j}"] = size - 1
+                ctx.count("program:with-heralded-block")
         if rng.random() < 0.3:
             # depth 2: a wrapper that holds a building block as a group
             b0 = rng.choice(sorted(blocks))
@@ -167,7 +173,8 @@ def _prim_of(rng, cid: str, n: int, want: str) -> list:
 
 
 MUTATORS = ["bs", "bs+loss", "ps", "ps+loss", "loss", "swaps", "barrier", "add-unitary", "add-unitary-grouped",
-            "add-block", "add-block-grouped", "herald", "edit-block-after-placement"]
+            "add-block", "add-block-grouped", "herald", "edit-block-after-placement",
+            "bs+loss@ancilla", "ps+loss@ancilla", "loss@ancilla", "swaps@ancilla", "add-unitary@ancilla"]
 
 
 def directed_reads(rng, want: str) -> list:
@@ -176,6 +183,14 @@ def directed_reads(rng, want: str) -> list:
     n = rng.randint(3, 5)
     prog: list = [["new", "c", n]]
     ptab: dict = {}
+    if want.endswith("@ancilla"):
+        # the circuit already holds a heralded sub-circuit: its ancilla mode sits below / between the user
+        # modes and the call under test has to be mapped over it
+        want = want[: -len("@ancilla")]
+        hs = rng.choice([2, 2, 3])
+        prog += [["new", "h0", hs], cg.op_bs("h0", 0, 1, *rng.choice(PYTH[1:-1])),
+                 ["herald", "h0", rng.choice([0, 1]), rng.randrange(hs), rng.randrange(hs)],
+                 ["add", "c", "h0", rng.choice([0, 0, 1]), rng.random() < 0.5]]
     blocks_first = want in ("add-block", "add-block-grouped", "edit-block-after-placement")
     if blocks_first:
         _block(rng, prog, "b0", rng.randint(1, n - 1), ptab, "u0")
